@@ -18,6 +18,17 @@ theorem supported_iff_mem (t : DType) : t.supported = true ↔ t ∈ allDTypes :
   obtain ⟨k, b⟩ := t
   cases k <;> simp [DType.supported, allDTypes] <;> omega
 
+/-- **header type table**: for each of the 11 supported types, the dtype name is recognised by `save`
+(`signedint / unsignedint / float`), the PIXELTYPE value written is read back as that pixel type, and the string
+`from_stream` hands to `np.dtype` — byte-order character, regex-reduced pixel type, `NBITS // 8` — resolves to the
+same type with the byte order of the header letter, for `I` and for `M` -/
+theorem header_dtype_table : ∀ t ∈ allDTypes,
+    pixelTypeOfName (stripTrailingDigits (dtypeName t)) = some (pixOf t.kind) ∧
+    lower (strip (joinSp (splitRunsAux true (upper (pixOf t.kind) ++ ['\n'])))) = pixOf t.kind ∧
+    dtypeOfStr ('<' :: (pixelSub (pixOf t.kind) ++ intStr (Int.fdiv ((t.bytes * 8 : Nat) : Int) 8))) = some (.little, t) ∧
+    dtypeOfStr ('>' :: (pixelSub (pixOf t.kind) ++ intStr (Int.fdiv ((t.bytes * 8 : Nat) : Int) 8))) = some (.big, t) :=
+  pixel_table
+
 /-! ## 2. bytes -/
 
 /-- a word written in a byte order and read in the same byte order is unchanged -/
@@ -92,6 +103,25 @@ theorem setData_id {ν : Type} (g : Grid ν) (rows : List (List Nat)) (hb : g.lo
     (hr : (rows.length : Int) = g.nrows) (hc : ∀ r ∈ rows, (r.length : Int) = g.ncols) :
     setData g rows = .ok { g with data := rows } :=
   setData_id' g rows hb hr hc
+
+/-- the detour through float64 that the data setter and `load` took at the pinned commit is the identity on integers
+below 2^53 in magnitude only … -/
+theorem roundF64_small (n : Int) (h : n.natAbs < 2 ^ 53) : roundF64 n = n := by
+  unfold roundF64
+  have hl : Nat.log2 n.natAbs + 1 - 53 = 0 := by
+    by_cases h0 : n.natAbs = 0
+    · rw [h0]; simp [Nat.log2]
+    · have := (Nat.log2_lt h0).mpr h
+      omega
+  simp only [hl, pow_zero, Nat.div_one, Nat.mod_one, Nat.mul_zero, Nat.mul_one]
+  have : ¬ (0 > 1 ∨ (0 = 1 ∧ n.natAbs % 2 = 1)) := by omega
+  rw [if_neg this]
+  split <;> omega
+
+/-- … and loses the low bits above (the defect repaired by the `fix:` commit): 2^62+1 ↦ 2^62 -/
+example : roundF64 (2 ^ 62 + 1) = 2 ^ 62 ∧ roundF64 (2 ^ 53 + 1) = 2 ^ 53 ∧ roundF64 (2 ^ 53 + 3) = 2 ^ 53 + 4 ∧
+    roundF64 (-(2 ^ 62 + 1)) = -(2 ^ 62) := by
+  decide
 
 /-- **load**: a file that stores `rows` row by row in byte order `bo` is loaded, with that byte order, to exactly
 `rows` — for every dtype with a positive item size, every shape and every word (full range, NaN, inf) -/
@@ -242,9 +272,6 @@ theorem header_roundtrip {ν : Type} (io : NumIO ν) (hio : IOok io) (bo : ByteO
     simp only [↓reduceIte, hdtB, Config.init, mkGrid, hnv, if_neg hshape]
     exact ⟨_, rfl, rfl, rfl, rfl, rfl, rfl, rfl, rfl, rfl, rfl, rfl, rfl⟩
 
-theorem bytes_pos_of_mem {t : DType} (h : t ∈ allDTypes) : 0 < t.bytes := by
-  revert t; decide
-
 /-- **raster of either byte order**: the header written for `g` with byte-order letter `bo`, together with a data
 file holding `g`'s words row by row in byte order `bo`, is loaded by `from_stream` to a grid with identical shape,
 georeferencing, dtype, no-data value and bit-identical cell values -/
@@ -346,30 +373,6 @@ theorem catchment_dict_roundtrip {ν : Type} (io : NumIO ν) (c : Catchment ν) 
 /-- a clone is the same grid: shape, georeferencing, dtype, no-data value, bounds, parent attributes and every
 cell word -/
 theorem clone_eq {ν : Type} (g : Grid ν) : clone g = g := rfl
-
-/-- one operation through handle `b` leaves what another handle `a` (a different array) sees unchanged, and keeps
-the two handles on different arrays -/
-theorem apply_other (s : Store) (a b : Handle) (ha : a.arr < s.length) (hb : b.arr < s.length) (hne : a.arr ≠ b.arr)
-    (op : SOp) :
-    (op.apply s b).1.read a = s.read a ∧ a.arr < (op.apply s b).1.length ∧
-      (op.apply s b).2.arr < (op.apply s b).1.length ∧ a.arr ≠ (op.apply s b).2.arr := by
-  cases op with
-  | setItem idx w => simp only [SOp.apply]; exact ⟨read_set_ne _ _ _ _ hne, by simpa using ha, by simpa using hb, hne⟩
-  | fill w => simp only [SOp.apply]; exact ⟨read_set_ne _ _ _ _ hne, by simpa using ha, by simpa using hb, hne⟩
-  | setData rows =>
-    simp only [SOp.apply]
-    exact ⟨read_append _ _ _ ha, by simp; omega, by simp, by omega⟩
-
-theorem applyAll_other (ops : List SOp) : ∀ (s : Store) (a b : Handle), a.arr < s.length → b.arr < s.length →
-    a.arr ≠ b.arr → (applyAll s b ops).1.read a = s.read a := by
-  induction ops with
-  | nil => intro s a b _ _ _; rfl
-  | cons op ops ih =>
-    intro s a b ha hb hne
-    obtain ⟨h1, h2, h3, h4⟩ := apply_other s a b ha hb hne op
-    simp only [applyAll]
-    rw [ih _ a _ h2 h3 h4, h1]
-
 
 /-- **clone independence** (`copy.deepcopy`): the clone sees the same cell words as the original at the moment of
 cloning; afterwards any sequence of item writes, fills and data rebindings applied through the clone leaves the
